@@ -101,7 +101,8 @@ def handle (req : Json) : Except String Json := do
       pure ((← (at_ a 0).getNat?), (← (at_ a 1).getNat?), t)
     let t0 ← getInt req "t0"
     let ops ← (← getArr req "ops").toList.mapM parseOp
-    let cfg : Cfg := ⟨caught⟩
+    let recover := (req.getObjValAs? Bool "recover").toOption.getD false
+    let cfg : Cfg := { caught := caught, recover := recover }
     let outs := run cfg (pfOf tbl) (St.initial t0) ops
     let js := outs.map fun (s, r) =>
       Json.mkObj [("res", resJson r), ("snap", snapJson s.file), ("init", s.init), ("now", Json.num s.now)]
